@@ -125,9 +125,10 @@ CHECKS = {
         'both component and query orders, on the analysed model and on a fresh analyser model; the key the real code stored in mCachedEquivalentVariables is compared with K on every witness, '
         'on 141 spread addresses and on 1024 / 2048 consecutive objects per base (all pairs). If the code is keyed differently the evidence says model_bound:false and the verdict rests on '
         'the end-to-end replays and all-pairs correctness + observed-key injectivity on those address sets.'
-        ' (c) histories: breadth-first search over all API histories up to depth 6 / 8 on 3 variables and 4 / 5 on 4 variables that interleave addEquivalence (with and without ids), removeEquivalence, '
-        'removeAllEquivalences with set/remove mapping and connection id on direct, indirect and unconnected pairs (both argument orders), de-duplicated by observable state + private id-map entries; in every reached state '
-        'both query functions (fresh analysis) and both id getters are judged: identifiers are decorations that never change connectivity, and a pair that is not linked has the id "".',
+        ' (c) histories: breadth-first search over all API histories up to depth 5 / 6 on 3 variables, 4 / 5 on 4 variables and (lean alphabet) 4 / 5 on 5 variables that interleave addEquivalence (with and without ids), removeEquivalence, '
+        'removeAllEquivalences, set/remove mapping and connection id on direct, indirect and unconnected pairs (both argument orders) and the DESTRUCTION of a variable (removed from its component, last reference dropped; neighbours keep an expired entry), '
+        'de-duplicated by observable state + private id-map entries + raw neighbour lists (order, expired slots); in every reached state, over the live variables: neighbour lists equal the reference edges and are symmetric, hasEquivalentVariable (direct and indirect) and '
+        'areEquivalentVariables (two fresh analyses asked in opposite orders) equal reachability over the live edges, and both id getters are judged: identifiers are decorations that never change connectivity, and a pair that is not linked has the id "".',
    note='Trusted: union-find reference, the placement allocator (an address is only used when the kernel maps exactly that page), glibc/ASan allocators for part (a), the one-line key model (only used to FIND '
         'candidate addresses; every verdict is an answer of the real code). Windows are a finite list of bases, each explored exhaustively; absence of collisions elsewhere is claimed only '
         'structurally (observed key = ordered address pair). Address-dependent wrong answers in part (a) would depend on the allocator layout and are not replayable; part (b) owns them.'),
@@ -159,7 +160,7 @@ CHECKS = {
         'assignAllIds(), assignAllIds(m0|m1|null), assignIds(type) for all 15 CellmlElementType values, assignId for 37 items (every carrier, foreign, out-of-range, null, inconsistent), clearAllIds x4. '
         'Depth: quick 2 (full alphabet, both starts) and 3 (44-operation core alphabet, both starts); thorough 3 (full, both starts) and 4 (core, both starts). Lookups (item, items, ids, '
         'duplicateIds, itemCount, isUnique, 13 typed getters, indexed forms) and Printer::printModel(m, true) are observations in every reached state. Plus every placement of <= 1 (quick) / <= 2 (thorough) '
-        'menu ids on 30 carriers x 3 backgrounds x 47 assign* calls on a fresh annotator, and index >= count for every getter.',
+        'menu ids on 30 carriers x 3 backgrounds x 47 assign* calls on a fresh annotator, index >= count for every getter, and the import-sharing family: for <= 3 (quick) / <= 4 (thorough) imported units and <= 2 / <= 3 imported components every set partition of the importing entities into ImportSource objects (non-adjacent and units-component sharing included) x every subset of sources with an id x distinct or pairwise equal ids x with/without local entities listed in between x 5 assign* calls (14,600 / 418,440 cases).',
    note='Trusted: the traversal through public getters (reference), libxml2 for reading the printed text, ASan/UBSan as crash oracle, a mirrored AnnotatorImpl layout (verified by a start-up probe) used only for the '
         'de-duplication key and the "next automatic id" menu entry. Not claimed: histories longer than the depth, other universes (several connections between the same components, MathML ids), lookups without a model.'),
  'C15': dict(level='exploration', ref='3/C15',
@@ -182,7 +183,7 @@ CHECKS = {
         'Every history (mixed-radix index) runs once in a forked child of a pristine process and is followed by EVERY operation in a forked grandchild. Judged per (history, probe): '
         'raw model dump (raw math strings) / text / issue list with descriptions equal to the fresh-process observation; argument model unchanged; second call on the same instance '
         'observes the same; every model, issue and AnalyserModel returned earlier dumps as when returned (AnalyserModel dump = variables, equations and every equation AST node with the consistency of its parent link); Analyser::model() exposes only the model just analysed. '
-        'Quick: 757 histories x 27 probes (+28 under ASan); thorough: 20440 x 27. Conflicting-twin family: a second alphabet of 32 operations = 16 parser/service calls on a document and on its conflicting twin (every name kept, every meaning changed: units definitions, variable units / initial values, moved ids, import references, imported file content under the same url, numbers in the math), all histories of length <= 1 (quick: 66 cases x 32 probes) / <= 2 (thorough: 2114 x 32) on one set of service instances, each in two modes (caller keeps / destroys every model and result after each call; the destroying mode also under ASan), all issue levels compared with a fresh process. Query family: 73 getters / lookups of the long-lived service instances (Importer library by key and index, Logger getters of every service, Annotator typed lookups with known / unknown / wrong-kind ids and out-of-range indices, Analyser external-variable lookups, Generator getters, strict flags) inserted before / after / instead of the op of every history of length <= 1 (quick: 9 group sweeps x 55 positions = 495 cases, bisected to the single getter on anomaly, + 55 under ASan; thorough: every single getter too, 4510 cases), each followed by all 27 probes and a dump of the documented state of every instance: a query must change nothing. BFS over global-state tuples runs to closure (7 states, 182 transitions), two histories with the same '
+        'Quick: 757 histories x 27 probes (+28 under ASan); thorough: 20440 x 27. Conflicting-twin family: a second alphabet of 32 operations = 16 parser/service calls on a document and on its conflicting twin (every name kept, every meaning changed: units definitions, variable units / initial values, moved ids, import references, imported file content under the same url, numbers in the math), all histories of length <= 1 (quick: 66 cases x 32 probes) / <= 2 (thorough: 2114 x 32) on one set of service instances, each in two modes (caller keeps / destroys every model and result after each call; the destroying mode also under ASan), all issue levels compared with a fresh process. Query family: 72 getters / lookups of the long-lived service instances (Importer library by key and index, Logger getters of every service, Annotator typed lookups with known / unknown / wrong-kind ids and out-of-range indices, Analyser external-variable lookups, Generator getters, strict flags) inserted before / after / instead of the op of every history of length <= 1 (quick: 9 group sweeps x 55 positions = 495 cases, bisected to the single getter on anomaly, + 55 under ASan; thorough: every single getter too, 4455 cases), each followed by all 27 probes and a dump of the documented state of every instance: a query must change nothing. BFS over global-state tuples runs to closure (7 states, 182 transitions), two histories with the same '
         'tuple but different observations are reported as harness abstraction errors (exit 2). Complete for the stated bound; nothing is sampled.',
    note='Trusted: the canonical dumps in harness/common.hpp + c12.cpp (public getters), fork() isolation, dlsym/ELF-symtab reads of the globals (no libxml2 accessor is called), libxml2 itself. '
         'The known blank-handling leak is filtered by a CAUSAL predicate only: the finding must vanish when xmlKeepBlanksDefaultValue is put back to its fresh value after every library '
@@ -237,7 +238,7 @@ CHECKS = {
         'every entity of every library file removed, every back-edge closing an import cycle of each length) on every resolvable connected graph of four of these shapes; repair sequences '
         'resolve(fault) -> [flatten] -> repair on disk / in the library -> {importer as is, after removeAllModels(), new importer} x {same root object, root parsed again} -> resolve -> flatten '
         'on the 2- and 3-file shapes, each repair also with the first importer and the models it loaded kept alive by the caller and with an explicit clearImports(). '
-        'Nesting dimension: shapes n2 (2 files x 2 components, 5 625 graphs) and r3 (3|1 components, 10 000) additionally carry EVERY encapsulation forest over the components of every file '
+        'Directory-layout dimension (disk delivery): every file of the graph in every directory of {./, a/, a/b/, s/} (root model in ./ or a/), hrefs relative to the importing file in three spellings (plain, with a redundant ./, with a detour dir/../), then the same graph through a library registered under exactly the keys the on-disk run produced; judged like every other run plus: every key read as a path leads to the file it stands for, import sources are bound to the model of their file, library delivery behaves like disk delivery. Quick: 2 files x 1+1 in all 24 layouts (9 600 cases) and 3 files x 1+1 with the root in ./ and plain hrefs (432 000 cases, acyclic graphs); thorough: shape q3 (3 files x 1+1 where a component may also use units only through a cn; 42 875 graphs x 96 layouts) and 1+1|2+2 (x 24), cyclic graphs of these with plain hrefs and the root in ./ only. Nesting dimension: shapes n2 (2 files x 2 components, 5 625 graphs) and r3 (3|1 components, 10 000) additionally carry EVERY encapsulation forest over the components of every file '
         '(imports nested under imports / under concrete components), with their fault and repair families (quick); thorough adds the nested shapes 2+0|2+1 (33 075) and 2|2|1 (69 984). Thorough adds 4 files x 1+1 with <= 5 imports (893 184 graphs), 3 files x 2+2 with <= 4 imports (691 489), 1|1+3|0+1 (118 098), with their fault families, '
         'and repairs on three more shapes. resolveImports is compared with the reference (true exactly when every transitive import is satisfiable), then hasUnresolvedImports(), the item of the '
         'issues, flattenModel (null with an issue when unresolved), libraryCount()/key(i)/library(), Logger coherence after every call; every call runs under a stack-overflow guard so that '
